@@ -58,7 +58,7 @@ void vf_run_case(Ctx& c, uint64_t index) {
   MVal fmodel = gen_filter(r);
   AJ::JsonDocument fdoc;
   if (use_filter) build(fdoc.to<AJ::JsonVariant>(), fmodel);
-  DeserOpt o; o.msgpack = msgpack; o.use_filter = use_filter; o.filter = fdoc.as<AJ::JsonVariantConst>(); o.limit = limit; o.chunk = (size_t)r.pick({1, 2, 3, 7, 64});
+  DeserOpt o; o.msgpack = msgpack; o.use_filter = use_filter; o.filter = fdoc.as<AJ::JsonVariantConst>(); o.limit = limit; o.filter_first = r.coin(); o.chunk = (size_t)r.pick({1, 2, 3, 7, 64});
   std::string wit = std::string(input_class_name(in.cls)) + " " + show(in) + " limit=" + std::to_string(limit) + (use_filter ? " filter=" + describe(fmodel, 120) : "");
   if (c.want_sample()) c.sample(wit);
   c.nontrivial(fnv1a(in.bytes, mix3(limit, use_filter ? mv_hash(fmodel) : 0, msgpack)));
